@@ -240,6 +240,52 @@ def slotOf (fs : Fields) (k : String) : Slot :=
       | none => .none
     | none => .none
 
+/-! ## append keys (`ActionTypeHint.apply_appends`)
+
+`merge_config` ends with `apply_appends(cfg)`: for every key of the configuration that ends with "+",
+`action = _find_action(parser, key[:-1])`, and ONLY WHEN `ActionTypeHint.supports_append(action)` the value is
+appended to the value of `key[:-1]` and the key `k+` is popped.  Any other key ending in "+" (a misspelt append
+key, "+" on an argument that is not a list) STAYS in the configuration and `check_values` reports it like any
+other unknown key.  (The same rule is `Jap.Sources.appendStep` of C04; here it is stated per level of the walk,
+each level being the parser whose `merge_config` sees the key.) -/
+
+/-- `key[:-1]` of a key that ends with "+" (on the characters, so that it reduces in the kernel) -/
+def plusBase (k : String) : Option String :=
+  match k.toList.reverse with
+  | '+' :: r => some (String.ofList r.reverse)
+  | _ => none
+
+/-- `ActionTypeHint.supports_append(action)` for the arguments of the model: a list-typed argument whose
+    elements are plain values.  (A list of dataclasses / class instances also "supports append", but what
+    `k+` does there depends on the element parser and includes a crash — outside the model, the harness does
+    not write such keys.) -/
+def appendable : Node → Bool
+  | .leaf ty _ _ => hasPlus ty
+  | .listOf _ (.leaf _ _ _) => true
+  | _ => false
+
+/-- the argument an append key `k+` of this level is consumed by — only a list-typed argument named `k` -/
+def appendSlot (fs : Fields) (k : String) : Option (String × Node) :=
+  match plusBase k with
+  | some b =>
+    match assoc b fs with
+    | some n => if appendable n then some (b, n) else none
+    | none => none
+  | none => none
+
+def itemsOf : Val → List Val
+  | .list xs => xs
+  | x => [x]
+
+/-- is the appended value (a list of elements or one element) acceptable for the argument? -/
+def appendOk (ld : String → Val) : Node → Val → Bool
+  | .leaf ty _ _, v => (adapt ld ty (.list (itemsOf v))).isSome
+  | .listOf _ (.leaf ty _ _), v =>
+    (itemsOf v).all fun x => match x with
+      | .null => false
+      | x => (adapt ld ty x).isSome
+  | _, _ => false
+
 /-! ## `check_required` -/
 
 def isNullOrMissing : Option Val → Bool
@@ -362,8 +408,13 @@ def walk (ld : String → Val) (pre : Path) (cut : Nat) (fs : Fields) (sel : Opt
         | .ok () => walk ld pre cut fs sel r
       else walk ld pre cut fs sel r            -- section of a non-selected subcommand: removed, never validated
     | .none =>
-      if leafless v then walk ld pre cut fs sel r   -- a namespace without leaves is invisible
-      else .error (.unknown (pre ++ [.key k] ++ (deepPath v).map .key) cut)
+      match appendSlot fs k with
+      | some (b, n) =>
+        -- `k+` of a list-typed argument `k`: consumed by `apply_appends`, the elements are checked
+        if appendOk ld n v then walk ld pre cut fs sel r else .error (.type (pre ++ [.key b]) cut)
+      | none =>
+        if leafless v then walk ld pre cut fs sel r   -- a namespace without leaves is invisible
+        else .error (.unknown (pre ++ [.key k] ++ (deepPath v).map .key) cut)
 /-- the entries of a class specification `{class_path, init_args, dict_kwargs}` -/
 def chkCls (ld : String → Val) (pre : Path) (cfs : Fields) : KV → R
   | [] => .ok ()
